@@ -440,6 +440,9 @@ class TermGuard:
                 ok = v == {'ok': 1, 'some': 1, 'err': 0, 'none': 0}.get(self.want, -1)
             else:
                 ok = v == {'true': 1, 'false': 0}.get(self.want, -1)
+                # `switch place { 0 => .., _ => here }`: the otherwise edge of a bool-valued place is "true"
+                if not ok and self.want == 'true' and isinstance(v, tuple) and len(v) == 2 and v[0] == 'else' and 0 in v[1]:
+                    ok = True
             if ok:
                 sites = [s for s in __import__('lib').call_sites_in(a)]
                 out.append(max(sites) if sites else 1000000)
